@@ -171,7 +171,36 @@ def eval_static(cfg):
                         table=str(tables[i]), p_def=[float(p1[s][i]) for s in 'XYZ'],
                         p_undef=[float(p0[s][i]) for s in 'XYZ'])
                     break
-    # default axis must be the same on the noise side and the code side (kwargs route)
+    # --- whole-error clause: P_deformed(e) == P_undeformed(D(e)) through the real error_probability (the
+    # quantity the splitting method consumes); reference = product of the undeformed per-qubit table
+    strs = ['I' * i + p + 'I' * (n - i - 1) for i in range(n) for p in 'XYZ']
+    strs += [p * n for p in 'XYZ'] + [''.join('XYZI'[(i + s) % 4] for i in range(n)) for s in range(4)]
+    strs += [''.join('IXZY'[(i * i + 3 * i // 2 + s) % 4] for i in range(n)) for s in range(2)]
+    for r in DIRECTIONS[:6]:
+        m0 = PauliErrorModel(*r)
+        m1 = PauliErrorModel(*r, deformation_name=name, deformation_kwargs=dict(kw))
+        for rate in (0.1, 0.37):
+            p0 = dict(zip('IXYZ', [np.asarray(a, dtype=float) for a in m0.probability_distribution(und, rate)]))
+            for s in strs:
+                e = gf2.pauli_string_to_int(s)
+                De = permute_row(e, n, tables)
+                sD = gf2.int_to_pauli_string(De, n)
+                ve = np.array(gf2.int_to_vec(e, 2 * n), dtype='uint8')
+                vDe = np.array(gf2.int_to_vec(De, 2 * n), dtype='uint8')
+                ref = 1.0
+                for i, ch in enumerate(sD):
+                    ref *= float(p0[ch][i])
+                got = float(m1.error_probability(ve, dfm, rate))
+                und_got = float(m0.error_probability(vDe, und, rate))
+                res['evals'] += 1
+                if abs(got - ref) > 1e-12 * max(ref, 1e-300) + 1e-300 or abs(und_got - ref) > 1e-12 * max(ref, 1e-300) + 1e-300:
+                    bad('deformed-error-probability-not-undeformed-probability-of-relabelled-error',
+                        direction=list(r), rate=rate, error=s[:120], deformed_model=got, undeformed_model_on_De=und_got,
+                        reference=ref)
+                    break
+            else:
+                continue
+            break
     res['nontrivial'] = 1
     nh = sum(1 for t in tables if t != IDENT)
     res['outcomes'] = ['%s|%s|%d/%d' % (cfg['cls'], name, nh, n)]
